@@ -361,6 +361,27 @@ def shape_scenarios(cases, prop):
                     "meta": dict(sh, family="shape", sel=c["sel"])})
     return out
 
+def dupname_scenarios(prop):
+    """C16: two statements that both qualify as managed carry the same name (written the same way, or differently with
+    the same meaning).  Which expression the name stands for cannot be told: nothing may be installed under it."""
+    out = []
+    for k, (n1, n2) in enumerate([("twice", "twice"), ("a&amp;b", "a&#38;b"), ("x-1", "x-&#49;")]):
+        irr = Irr()
+        e1 = irr.asset_with(["a"], ["c"]); e2 = irr.asset_with(["b"], []); ctl = irr.asset_with(["d"], [])
+        # the fake router writes names escaped: give it the name as it is meant (decoded) - both statements get the same
+        import html
+        name = html.unescape(n1)
+        assert html.unescape(n2) == name
+        running = [stmt("control", f"/* bgpfu-fltr: {ctl} */"), stmt(name, f"/* bgpfu-fltr: {e1} */"), stmt("between", None, body="terms+reject"),
+                   stmt(name, f"/* bgpfu-fltr: {e2} */")]
+        pol = {name: exp(False, True, "none", why="two managed statements with one name"),
+               "control": exp(True, True, "ok", ["d"], [], ctl, "control"), "between": exp(False, False, "none", why="plain")}
+        out.append({"case": f"{prop}-dup{k}", "instance": "bgpfu", "eph0": [],
+                    "runs": [{"running": running, "irr": irr.db, "faults": [], "repeat": False,
+                              "expect": {"prop": prop, "c16": False, "ambiguous": True, "policies": pol}}],
+                    "meta": {"family": "dupname", "names": [n1, n2]}})
+    return out
+
 def shapehist_scenarios(histories, per_router, prop):
     """C16 over histories: every statement of a router follows its own history of shapes (valid annotation, another valid
     one, an annotation that does not parse, deactivated, other content, statement gone, annotation gone); the IRR data
